@@ -2,6 +2,19 @@
 """writes MANIFEST.json from the table below (kept in one place so that it stays valid)"""
 import json
 CHECKS = {
+ "C06": dict(
+   text="Partial proof. Proved for every strictly increasing array of piece end times and every query: the lookup of DenseOutput returns "
+        "the piece whose interval contains the query - for forward runs and (with the repaired lookup) for backward runs, where pieces are "
+        "stored front-inserted; scalar and array lookups choose the same piece; a Hermite piece (regenerated from the source) reproduces "
+        "the recorded states and slopes at both ends, so sol(t_k) = y_k whichever adjacent piece answers. Tied to the code by comparing "
+        "find_interval / find_interval_vec of real dense outputs (15+ methods incl. Richardson wrappers, both directions, continued, "
+        "event-resumed and fault-resumed histories) with the model bit for bit. Measured on the implementation, not proved: end slopes "
+        "equal the right-hand side at the recorded states, reproduction of recorded states, array = scalar queries, and the O(h^4) "
+        "interpolation bound (Peano kernel bound cited) against the closed-form solution.",
+   note="Trusted: Lean kernel, standard axioms, translate.py (Hermite), harness. The slope caches of the integrators and the "
+        "container's add/remove history are exercised, not modelled.",
+   technique="Lean 4 proof (bisection specification lifted to both storage orders; generated Hermite identities) + bit-exact lookup correspondence + closed-form measurements",
+   design="5 (C06)"),
  "C07": dict(
    text="Partial proof on a Lean model of the selection logic of handle_events and of the event bookkeeping in integrate, given what the "
         "root finder and the sampled event function delivered: every reported event is a monitored event that was located successfully and "
